@@ -4,6 +4,8 @@
 package main
 
 import (
+	"syscall"
+	"os/signal"
 	"flag"
 	"fmt"
 	"os"
@@ -52,6 +54,24 @@ func main() {
 	}
 	res := h.NewResult(prop, *tier, *seed)
 	go stallWatchdog(prop, *tier)
+	if *out != "" && len(prop) == 3 {
+		// the check's time limit: on SIGTERM what was found so far is written (violations and disagreements are append-only
+		// lists) and the run ends with status 5 — a slow run under a seeded change must not lose its findings
+		sig := make(chan os.Signal, 1)
+		signal.Notify(sig, syscall.SIGTERM)
+		go func() {
+			<-sig
+			part := h.NewResult(prop, *tier, *seed)
+			part.Evaluations = res.Evaluations
+			part.Violations = append(part.Violations, res.Violations...)
+			part.Disagreements = append(part.Disagreements, res.Disagreements...)
+			part.Streams = append(part.Streams, res.Streams...)
+			part.Rule = res.Rule
+			part.Notes = append(part.Notes, "interrupted by the check's time limit: partial result (cases judged so far)")
+			part.Write(*out)
+			os.Exit(5)
+		}()
+	}
 	if err := fn(res, h.NewRng(*seed), *tier, *replay); err != nil {
 		fmt.Fprintln(os.Stderr, "HARNESS-ERROR:", err)
 		os.Exit(3)
